@@ -325,6 +325,11 @@ namespace occa {
     occaType newOccaType(const occa::json &json,
                          const bool needsFree) {
       if (json.isNull()) {
+        // occaNull does not refer to the json object: an owned one
+        // (e.g. from occaJsonParse("null")) would never be freed
+        if (needsFree) {
+          delete &json;
+        }
         return occaNull;
       }
       occaType oType;
